@@ -693,7 +693,7 @@ def filter(table: Table, *predicates: ColExpr[Bool]) -> Pipeable:
         if not types.without_const(cond.dtype()) == Bool():
             raise DataTypeError(
                 "predicates given to `filter` must be of boolean type.\n"
-                f"hint: {cond} is of type {cond.dtype()} instead."
+                f"hint: `{cond.ast_repr()}` is of type {cond.dtype()} instead."
             )
 
         for fn in cond.iter_subtree_postorder():
